@@ -92,7 +92,19 @@ def _static_key(ctx, body, bb, kind):
     t = body.blocks[bb]["term"]
     if t["k"] == "assert":
         ops = [_VNUM.sub("v", strip_ver(show(se.operand(o)))) for o in t["ops"]]
-        return "%s(%s)" % (t["kind"], ", ".join(o[:120] for o in ops))
+        ty = ""
+        if t["kind"].startswith("Overflow") and t["ops"]:
+            # the operand type is part of the shape: the same subtraction on an i32 and on a usize are different sites
+            o0 = t["ops"][0]
+            if o0.get("k") == "const":
+                o0 = t["ops"][1] if len(t["ops"]) > 1 else o0
+            if o0.get("k") == "const":
+                ty = strip_lt(o0.get("ty", ""))
+            elif o0.get("k") in ("copy", "move"):
+                pl = o0["place"]
+                ty = strip_lt(pl["p"][-1].get("ty", "")) if pl["p"] and isinstance(pl["p"][-1], dict) and pl["p"][-1].get("ty") else strip_lt(body.locals[pl["l"]]["ty"]) if not pl["p"] else ""
+            ty = "<%s>" % ty if ty else ""
+        return "%s%s(%s)" % (t["kind"], ty, ", ".join(o[:120] for o in ops))
     d, r, fn = callee(t)
     args = [_VNUM.sub("v", strip_ver(show(se.operand(a)))) for a in t["args"]]
     return "%s:%s(%s)" % (kind, r.split("::")[-1] if r else "?", ", ".join(a[:90] for a in args))
